@@ -108,7 +108,13 @@ def run(ctx):
     n_real = lead_real = 0
     rk = uuid.UUID("d778c271-9025-9a82-f6dc-b8960b8ad8c5")
 
-    def real_case(hn, mode, l2, plen, small_group, scenario=None, repad=0):
+    def degenerate(blob):
+        """an FFC-DH key structure whose public value is outside (1, p − 1): the receiver is right to refuse it (D15)"""
+        kl_ = int.from_bytes(blob[4:8], "little")
+        p__, y__ = int.from_bytes(blob[8:8 + kl_], "big"), int.from_bytes(blob[8 + 2 * kl_:8 + 3 * kl_], "big")
+        return not (1 < y__ < p__ - 1)
+
+    def real_case(hn, mode, l2, plen, small_group, scenario=None, repad=0, first_draw=None):
         nonlocal n_real, lead_real
         sa = "DH" if mode.startswith("DH") or mode == "nonce" else mode
         if mode == "DHsmall":
@@ -129,19 +135,38 @@ def run(ctx):
                 kl0, p0, g0 = refimpl.parse_ffc_params(sp)
                 pub = refimpl.ffc_key(kl0 + repad, p0, g0, int.from_bytes(pub[8 + 2 * kl0:8 + 3 * kl0], "big"))
             env_s = gen.make_env(kdf_parameters=seed_env.kdf_parameters, l2_key=pub, l1_key=b"", flags=1, secret_algorithm=sa, secret_parameters=sp, private_key_length=plen)
-        with toycrypto.recording() as log:
+        inp0 = {"mode": mode, "hash": hn, "l2": hx(l2), "secret_parameters": hx(sp)[:80], "private_key_length": plen, **({"key_length_padding": repad} if repad else {}),
+                **({"scenario": scenario} if scenario else {})}
+        drawn = []
+
+        def script(n):
+            import os as _os
+            b = first_draw.to_bytes(n, "big") if (first_draw is not None and not drawn) else _os.urandom(n)
+            drawn.append(b)
+            return b
+        with toycrypto.recording(script) as log:
             try:
                 kek, kid = env_s.new_kek()
+            except ValueError as e:
+                if sa == "DH" and mode != "nonce" and degenerate(env_s.l2_key):
+                    ctx.count("real:degenerate_group_public_value_refused")     # (a tiny group can produce one; refusing it is right)
+                elif sa == "DH":
+                    ctx.violation("KEK derivation fails for a well-formed DH configuration", {**inp0, "side": "sender", "draw": hx(log.urandom[0]) if log.urandom else "00" * 64}, f"ValueError: {e}"[:120], "a KEK")
+                else:
+                    ctx.notes.append(f"real {mode}/{hn}: {e}")      # (EC scalars out of range can happen)
+                return
+            try:
                 kek_r = seed_env.get_kek(kid)
             except ValueError as e:
-                # a private scalar ≡ 0 for a tiny DH exponent etc. cannot happen here; EC scalars out of range can
-                if sa == "DH":
-                    ctx.violation("KEK derivation fails for a well-formed DH configuration", {"mode": mode, "hash": hn, "l2": hx(l2), "secret_parameters": hx(sp)[:80], "private_key_length": plen,
-                                                                                             **({"key_length_padding": repad} if repad else {}), "draw": hx(log.urandom[0]) if log.urandom else "00" * 64},
-                                  f"ValueError: {e}"[:120], "a KEK")
+                if sa == "DH" and mode != "nonce" and degenerate(kid.key_info):
+                    ctx.count("real:degenerate_ephemeral_value_refused_by_receiver")
+                    kek_r = kek      # nothing to compare on the receiving side; the sender's KEK is still checked against the construction
+                elif sa == "DH":
+                    ctx.violation("KEK derivation fails for a well-formed DH configuration", {**inp0, "side": "receiver", "draw": hx(log.urandom[0]) if log.urandom else "00" * 64}, f"ValueError: {e}"[:120], "a KEK")
+                    return
                 else:
                     ctx.notes.append(f"real {mode}/{hn}: {e}")
-                return
+                    return
             draw = log.urandom[0]
         n_real += 1
         if mode == "nonce":
@@ -149,14 +174,21 @@ def run(ctx):
         else:
             indep = refimpl.kek_public(hn.lower(), sa, draw, env_s.l2_key)
             indep_r = refimpl.kek_public(hn.lower(), sa, refimpl.group_private_key(hn.lower(), l2, sa, plen), kid.key_info)
+            if indep_r != indep and kek != indep_r:
+                # (the receiver's KEK follows from the ephemeral public value STORED in the key identifier; a sender that drew again
+                # must return the KEK of the value it finally stored)
+                ctx.violation("the sender's KEK does not belong to the ephemeral public value it stored in the key identifier",
+                              {**inp0, "draw": hx(draw), **({"first_draw": first_draw} if first_draw is not None else {})}, hx(kek), hx(indep_r))
+                return
             if indep_r != indep:
-                ctx.violation("independent implementation: the two sides disagree (oracle defect?)", {"mode": mode, "hash": hn}, hx(indep_r), hx(indep))
+                indep = indep_r       # the sender legitimately drew again: the construction is checked for the value it stored
             z, _ = refimpl.shared_secret(sa, draw, env_s.l2_key)
             if z[0] == 0 or kid.key_info[8:9] == b"\x00" or kid.key_info[8 + (len(kid.key_info) - 8) // 3 * 2: 9 + (len(kid.key_info) - 8) // 3 * 2] == b"\x00":
                 lead_real += 1
         if not (kek == kek_r == indep):
             ctx.violation("KEK disagreement with real crypto", {"mode": mode, "hash": hn, "draw": hx(draw), "l2": hx(l2), "secret_parameters": hx(sp)[:80], "private_key_length": plen,
-                                                                **({"scenario": scenario} if scenario else {}), **({"key_length_padding": repad} if repad else {})},
+                                                                **({"scenario": scenario} if scenario else {}), **({"key_length_padding": repad} if repad else {}),
+                                                                **({"first_draw": first_draw} if first_draw is not None else {})},
                           f"sender={hx(kek)} receiver={hx(kek_r)}", f"independent={hx(indep)}")
 
     for hn in HASHES:
@@ -165,6 +197,14 @@ def run(ctx):
             for _ in range(reps):
                 real_case(hn, mode, gen.rand_bytes(rng, 64), rng.choice([512, 256, 384, 16, 8]), rng.choice(SMALL_GROUPS),
                           repad=rng.choice([0, 0, 1, 4]) if mode == "DHsmall" else (rng.choice([0, 1, 4]) if mode == "DH" else 0))
+    # ---- (b1) ephemeral exponents that give a degenerate public value (g^x = 1 or p − 1) in a small group, scripted as the FIRST draw:
+    #      whatever the sender then does (keep it, or draw again), the KEK it returns must belong to the public value it stores
+    for (kl_, p_, g_) in [grp for grp in SMALL_GROUPS if grp[1] < 2**17]:
+        order = next(k for k in range(1, p_) if pow(g_, k, p_) == 1)
+        for x0 in [order, 2 * order] + ([order // 2] if order % 2 == 0 and pow(g_, order // 2, p_) == p_ - 1 else []):
+            for hn in HASHES[:2] if not ctx.thorough else HASHES:
+                real_case(hn, "DHsmall", gen.rand_bytes(rng, 64), 256, (kl_, p_, g_), scenario="degenerate first ephemeral exponent", first_draw=x0)
+                ctx.count("real:scripted_degenerate_exponent")
     # ---- (b0) ONE L2 seed (one group key) used under every KDF hash in turn, in one process: whatever the library keeps between
     #      calls, each (seed, hash) pair must still give the KEK of the independent implementation
     for mode in ("nonce", "DHsmall", "ECDH_P256"):
@@ -259,7 +299,7 @@ def replay(ctx, payload):
     l2, draw, sp, plen = bytes.fromhex(v["l2"]), bytes.fromhex(v["draw"]), bytes.fromhex(v["secret_parameters"].replace("-", "")), v["private_key_length"]
     ok = True
     # a recorded history ("one seed, every hash in turn") is replayed as that history; a single case as itself
-    for hn in ((HASHES + HASHES[::-1]) if v.get("scenario") else [v["hash"]]):
+    for hn in ((HASHES + HASHES[::-1]) if v.get("scenario") == "one seed, every hash in turn" else [v["hash"]]):
         seed_env = gen.make_env(kdf_parameters=gen.kdf_params(hn), l2_key=l2, l1_key=b"", secret_algorithm=sa, secret_parameters=sp, private_key_length=plen)
         pub = None if mode == "nonce" else refimpl.group_public_key(hn.lower(), l2, sa, sp, plen)
         if pub is not None and v.get("key_length_padding") and sa == "DH":
@@ -267,15 +307,34 @@ def replay(ctx, payload):
             pub = refimpl.ffc_key(kl0 + v["key_length_padding"], p0, g0, int.from_bytes(pub[8 + 2 * kl0:8 + 3 * kl0], "big"))
         env_s = seed_env if mode == "nonce" else gen.make_env(kdf_parameters=seed_env.kdf_parameters, l2_key=pub, l1_key=b"",
                                                               flags=1, secret_algorithm=sa, secret_parameters=sp, private_key_length=plen)
-        with toycrypto.recording(lambda n: draw[:n]):
+        used = []
+
+        def script(n):
+            import os as _os
+            b = draw[:n] if not used else _os.urandom(n)       # the recorded draw first; a sender that draws again gets fresh bytes
+            used.append(b)
+            return b
+        with toycrypto.recording(script):
             try:
                 kek, kid = env_s.new_kek()
-                kek_r = seed_env.get_kek(kid)
             except ValueError as e:
-                print(f"{hn}: ValueError: {e}")
+                print(f"{hn}: sender: ValueError: {e}")
                 ok = False
                 continue
-        indep = refimpl.kek_nonce(hn.lower(), l2, kid.key_info) if mode == "nonce" else refimpl.kek_public(hn.lower(), sa, draw, env_s.l2_key)
+            try:
+                kek_r = seed_env.get_kek(kid)
+            except ValueError as e:
+                ki = kid.key_info
+                kl_ = int.from_bytes(ki[4:8], "little")
+                if sa == "DH" and mode != "nonce" and not (1 < int.from_bytes(ki[8 + 2 * kl_:8 + 3 * kl_], "big") < int.from_bytes(ki[8:8 + kl_], "big") - 1):
+                    print(f"{hn}: the receiver refuses the degenerate ephemeral value (as it should)")
+                    kek_r = kek
+                else:
+                    print(f"{hn}: receiver: ValueError: {e}")
+                    ok = False
+                    continue
+        # the construction, for the ephemeral public value actually stored in the key identifier
+        indep = refimpl.kek_nonce(hn.lower(), l2, kid.key_info) if mode == "nonce" else refimpl.kek_public(hn.lower(), sa, refimpl.group_private_key(hn.lower(), l2, sa, plen), kid.key_info)
         print(f"{hn}: sender={hx(kek)} receiver={hx(kek_r)} independent={hx(indep)}")
         ok = ok and kek == kek_r == indep
     return ok
